@@ -208,27 +208,34 @@ package secec
 //@   props C09 C08
 //@   requires !isnil(rand)
 //@   split case result1 == nil
-//@   ensures !errIs(result1, errSigCheckFailed)
-//@   loop 0 invariant 0 <= i && i <= 8
-//@   loop 0 modifies tmp, s.m
+//@   loop 0 invariant 0 <= i && i <= 8 && iff(sampok(old(rdstate(rand)), 8), sampok(rdstate(rand), 8 - i)) && sampv(old(rdstate(rand)), 8) == sampv(rdstate(rand), 8 - i) && samps(old(rdstate(rand)), 8) == samps(rdstate(rand), 8 - i)
+//@   loop 0 modifies tmp, s.m, rdstate(rand)
+//@   using samp_def(rdstate(rand), 8 - i)
+//@   using samp_zero(rdstate(rand))
+//@   ensures result1 == nil ==> sampok(old(rdstate(rand)), 8) && lift(val(result0)) == sampv(old(rdstate(rand)), 8) && sampv(old(rdstate(rand)), 8) >= 1 && sampv(old(rdstate(rand)), 8) < N && rdstate(rand) == samps(old(rdstate(rand)), 8)
 //@   ensures result1 == nil ==> val(result0) != 0
 //@   ensures result1 != nil ==> result0 == nil
+//@   ensures !errIs(result1, errSigCheckFailed)
+//@   modifies rdstate(rand)
 //@   fresh result0
-//@
-//@ func newDrbgRFC6979
-//@   props C09
-//@   ensures !isnil(result)
 //@
 //@ func mitigateDebianAndSony
 //@   props C09 C08
+//@   split dyn rand sentinelReaderRFC6979 value
 //@   split case result1 == nil
-//@   ensures !errIs(result1, errSigCheckFailed)
-//@   ensures result1 == nil ==> !isnil(result0)
+//@   requires !isnil(k) && !isnil(e)
+//@   ensures isdyn(rand, sentinelReaderRFC6979) ==> result1 == nil && isdyn(result0, drbgRFC6979) && !result0.(*drbgRFC6979).needUpdate && os2ip(result0.(*drbgRFC6979).k) == hmac_voxh(hmac_voxh(0, drbg_v0(), 0, lift(val(k.scalar)), lift(val(e))), hmac_v(hmac_voxh(0, drbg_v0(), 0, lift(val(k.scalar)), lift(val(e))), drbg_v0()), 1, lift(val(k.scalar)), lift(val(e))) && os2ip(result0.(*drbgRFC6979).v) == hmac_v(hmac_voxh(hmac_voxh(0, drbg_v0(), 0, lift(val(k.scalar)), lift(val(e))), hmac_v(hmac_voxh(0, drbg_v0(), 0, lift(val(k.scalar)), lift(val(e))), drbg_v0()), 1, lift(val(k.scalar)), lift(val(e))), hmac_v(hmac_voxh(0, drbg_v0(), 0, lift(val(k.scalar)), lift(val(e))), drbg_v0()))
+//@   ensures (!isnil(rand) && !isdyn(rand, sentinelReaderRFC6979) && result1 == nil) ==> !isnil(result0) && rdstate(result0) == absorb(absorb(absorb(thxof128(bcat(bstrs("Honorary Debian/Sony RNG mitigation:"), strabs(ctx))), bstrn(32, lift(val(k.scalar)))), bstrn(32, rdint(old(rdstate(rand)), 32))), bstrn(32, lift(val(e)))) && rdstate(rand) == rdnext(old(rdstate(rand)), 32)
+//@   ensures (isnil(rand) && result1 == nil) ==> !isnil(result0) && rdstate(result0) == absorb(absorb(absorb(thxof128(bcat(bstrs("Honorary Debian/Sony RNG mitigation:"), strabs(ctx))), bstrn(32, lift(val(k.scalar)))), bstrn(32, rdint(old(rdstate(osrand())), 32))), bstrn(32, lift(val(e)))) && rdstate(osrand()) == rdnext(old(rdstate(osrand())), 32)
 //@   ensures result1 != nil ==> isnil(result0)
+//@   ensures !errIs(result1, errSigCheckFailed)
+//@   modifies rdstate(rand), rdstate(osrand())
 //@
 //@ func sign
-//@   props C08
+//@   props C08 C09
 //@   requires !isnil(d)
+//@   ensures (!isnil(rand) && !isdyn(rand, sentinelReaderRFC6979) && result3 == nil) ==> rdstate(rand) == rdnext(old(rdstate(rand)), 32)
+//@   ensures (isnil(rand) && result3 == nil) ==> rdstate(osrand()) == rdnext(old(rdstate(osrand())), 32)
 //@   split case result3 == nil
 //@   loop 0 invariant true
 //@   assert sdef@recoveryID abstract(s): val(s) != 0 && rewrite(fn(os2ip(hBytes[0:32])), val(s)*val(k) - val(r)*val(d.scalar))
@@ -248,6 +255,7 @@ package secec
 //@   fork neg@negateS: negateS == 0
 //@   assert recpt@return: rewrite(ptxy(atom(fp(recx(val(r), recoveryID))), recoveryID % 2), smul(ite(negateS == 0, val(k), 0 - val(k)), G))
 //@   fresh result0, result1
+//@   modifies rdstate(rand), rdstate(osrand())
 //@
 //@ func (*PrivateKey).SignRaw
 //@   props C08
@@ -259,6 +267,7 @@ package secec
 //@   ensures result3 != nil ==> result0 == nil && result1 == nil
 //@   ensures !errIs(result3, errSigCheckFailed)
 //@   fresh result0, result1
+//@   modifies rdstate(rand), rdstate(osrand())
 //@
 //@ func BuildASN1Signature
 //@   props C08 C12
@@ -282,16 +291,19 @@ package secec
 //@   ensures result1 != nil ==> result0 == nil
 //@   ensures !errIs(result1, errSigCheckFailed)
 //@   fresh result0
+//@   modifies rdstate(rand), rdstate(osrand())
 //@
 //@ func verifLemmaSignRawVerifies
 //@   props C08
 //@   reach signed@r: true
 //@   ensures result
+//@   modifies rdstate(rand), rdstate(osrand())
 //@
 //@ func verifLemmaSignRawRecovers
 //@   props C08
 //@   reach recovered@q: true
 //@   ensures result
+//@   modifies rdstate(rand), rdstate(osrand())
 //@
 //@ func verifLemmaSignVerifies
 //@   props C08
@@ -299,6 +311,7 @@ package secec
 //@   requires !isnil(opts) ==> (opts.Hash >= 0 && opts.Hash <= 19)
 //@   reach signed@sig#2: len(sig) > 0
 //@   ensures result
+//@   modifies rdstate(rand), rdstate(osrand())
 //@
 //@ func verifLemmaCompactRoundTrip
 //@   props C08 C12
@@ -309,3 +322,35 @@ package secec
 //@   props C08 C12
 //@   requires val(r) != 0 && val(s) != 0
 //@   ensures result
+//@
+//@ type drbgRFC6979
+//@   inv len(self.v) == 32 && len(self.k) == 32
+//@
+//@ func (*drbgRFC6979).updateV
+//@   props C09
+//@   ensures len(drbg.v) == 32 && os2ip(drbg.v) == hmac_v(old(os2ip(drbg.k)), old(os2ip(drbg.v)))
+//@   ensures unchanged(drbg.k, drbg.needUpdate)
+//@   modifies drbg.v, drbg.v[:]
+//@
+//@ func (*drbgRFC6979).updateK
+//@   props C09
+//@   ensures len(drbg.k) == 32 && os2ip(drbg.k) == hmac_vo(old(os2ip(drbg.k)), old(os2ip(drbg.v)), 0)
+//@   ensures unchanged(drbg.v, drbg.needUpdate)
+//@   modifies drbg.k, drbg.k[:]
+//@
+//@ func (*drbgRFC6979).Read
+//@   props C09
+//@   panics len(b) != 32
+//@   split case drbg.needUpdate
+//@   ensures result0 == 32 && result1 == nil && drbg.needUpdate
+//@   ensures !old(drbg.needUpdate) ==> os2ip(drbg.k) == old(os2ip(drbg.k)) && os2ip(drbg.v) == hmac_v(old(os2ip(drbg.k)), old(os2ip(drbg.v)))
+//@   ensures old(drbg.needUpdate) ==> os2ip(drbg.k) == hmac_vo(old(os2ip(drbg.k)), old(os2ip(drbg.v)), 0) && os2ip(drbg.v) == hmac_v(hmac_vo(old(os2ip(drbg.k)), old(os2ip(drbg.v)), 0), hmac_v(hmac_vo(old(os2ip(drbg.k)), old(os2ip(drbg.v)), 0), old(os2ip(drbg.v))))
+//@   ensures os2ip(b) == os2ip(drbg.v)
+//@   modifies drbg.k, drbg.k[:], drbg.v, drbg.v[:], drbg.needUpdate, b
+//@
+//@ func newDrbgRFC6979
+//@   props C09
+//@   noalias x, e
+//@   ensures isdyn(result, drbgRFC6979) && !result.(*drbgRFC6979).needUpdate
+//@   ensures os2ip(result.(*drbgRFC6979).k) == hmac_voxh(hmac_voxh(0, drbg_v0(), 0, lift(val(x)), lift(val(e))), hmac_v(hmac_voxh(0, drbg_v0(), 0, lift(val(x)), lift(val(e))), drbg_v0()), 1, lift(val(x)), lift(val(e)))
+//@   ensures os2ip(result.(*drbgRFC6979).v) == hmac_v(hmac_voxh(hmac_voxh(0, drbg_v0(), 0, lift(val(x)), lift(val(e))), hmac_v(hmac_voxh(0, drbg_v0(), 0, lift(val(x)), lift(val(e))), drbg_v0()), 1, lift(val(x)), lift(val(e))), hmac_v(hmac_voxh(0, drbg_v0(), 0, lift(val(x)), lift(val(e))), drbg_v0()))
